@@ -60,6 +60,9 @@ def build_tools(need):
             elif tool == "esbuild-race":
                 cmd = ["go", "build", "-race", "-tags", "verif", "-o", os.path.join(BIN, "esbuild-race"), "./cmd/esbuild"]
                 cwd = REPO
+            elif tool == "mapranges":
+                cmd = ["go", "build", "-o", os.path.join(BIN, "mapranges"), "."]
+                cwd = os.path.join(VERIF, "tools", "mapranges")
             elif tool.endswith("-race"):
                 cmd = ["go", "build", "-race", "-tags", "verif", "-o", os.path.join(BIN, tool), "./cmd/" + tool[:-5]]
                 cwd = harness
@@ -85,9 +88,17 @@ def build_tools(need):
 # ----------------------------------------------------------------------------------------------
 # step 2: facts + theorems
 
-def run_extract():
+MAPRANGE_PKGS = ["./internal/linker", "./internal/bundler", "./pkg/api", "./internal/graph", "./internal/resolver",
+                 "./internal/js_printer", "./internal/css_printer", "./internal/renamer"]
+
+
+def run_extract(with_mapranges=False):
     with Lock("lake"):
         rc, out, err = sh([os.path.join(BIN, "extract"), REPO, GEN], timeout=300)
+        if rc == 0 and with_mapranges:
+            # type-checked facts (go/packages): every `for ... range <map>` loop of the build pipeline
+            rc, out, err = sh([os.path.join(BIN, "mapranges"), REPO, os.path.join(GEN, "MapRanges.lean")] + MAPRANGE_PKGS,
+                              env=GOENV, timeout=600)
     return None if rc == 0 else (out + err)[-4000:]
 
 
@@ -376,7 +387,7 @@ def main(argv):
     audit_res = {}
     lean_err = None
     if not tools.get("extract"):
-        e = run_extract()
+        e = run_extract(with_mapranges=("mapranges" in cfg.get("binaries", []) and not tools.get("mapranges")))
         if e:
             broken.append({"kind": "tie", "name": "fact extraction from /repo failed", "detail": e})
     if not args.only_search:
